@@ -45,6 +45,25 @@ def known_functions() -> Dict[str, dict]:
 
 ALIASES: Dict[int, Dict[str, str]] = {}      # id(module tree) -> {qualname of the pinned tree: where that function lives now}
 PROTECTED: Dict[int, set] = {}               # names of moved functions: they keep their identity and are not inlined
+EXTERNAL: Dict[str, Dict[str, ast.AST]] = {}  # yatiml module -> its new module-level functions (step H: inlined where imported)
+
+
+def collect_external_helpers(trees: Dict[str, ast.Module]) -> None:
+    """step H, program level: the module-level functions that the pinned tree does not have (new helpers, public or private) are
+    made available to the inliner of every module that imports them"""
+    EXTERNAL.clear()
+    known = known_functions()
+    for mod, tree in trees.items():
+        k = set(known.get(mod, {}).get('functions', []))
+        out = {}
+        for q, fn, cls, _ in _scopes(tree):
+            if '.' in q or cls is not None or q in k or isinstance(fn, ast.AsyncFunctionDef):
+                continue
+            if fn.name.startswith('_yatiml') or fn.name in PROTECTED.get(id(tree), ()):
+                continue
+            if _Inliner._eligible(fn):
+                out[fn.name] = fn
+        EXTERNAL[mod] = out
 
 
 class NotInlinable(Exception):
@@ -175,6 +194,54 @@ def restore_renamed(tree: ast.Module, modname: str, baseline: Optional[Dict[str,
                 log.append('%s: %s now lives at %s (similarity %.2f)' % (modname, q, nq, best_r))
                 ALIASES.setdefault(id(tree), {})[q] = nq
                 protected.add(fn.name)
+    # by elimination: a listed function that is still missing, whose pinned callers now call exactly one function that the pinned
+    # tree does not have (in the scope where the missing one lived), is that function under a new name - whatever its body has
+    # become (constants hoisted into another module, loops turned into comprehensions)
+    sources = known.get('sources', {})
+    scopes = _scopes(tree)
+    have = {q for q, _, _, _ in scopes}
+    for q in [m for m in missing if m not in have]:
+        old_name = q.rsplit('.', 1)[-1]
+        parent_q = q.rsplit('.', 1)[0] if '.' in q else ''
+        callers = []
+        for k, src in sources.items():
+            if k == q:
+                continue
+            try:
+                kt = ast.parse(src)
+            except SyntaxError:
+                continue
+            if any(isinstance(c, ast.Call) and ((isinstance(c.func, ast.Attribute) and c.func.attr in _mangled(parent_q or None, old_name))
+                                                or (isinstance(c.func, ast.Name) and c.func.id == old_name)) for c in ast.walk(kt)):
+                callers.append(k)
+        if not callers:
+            continue
+        cur = {q2: f2 for q2, f2, _, _ in scopes}
+        if not all(k in cur for k in callers):
+            continue
+        cands = []
+        for nq, fn, cls in new:
+            if nq in used or nq in have and nq in known['functions']:
+                continue
+            if (nq.rsplit('.', 1)[0] if '.' in nq else '') != parent_q:
+                continue
+            names = set(_mangled(cls.name if cls is not None else None, fn.name))
+            if all(any(isinstance(c, ast.Call) and ((isinstance(c.func, ast.Attribute) and c.func.attr in names)
+                                                    or (isinstance(c.func, ast.Name) and c.func.id in names))
+                       for c in ast.walk(cur[k])) for k in callers):
+                cands.append((nq, fn, cls))
+        if len(cands) != 1:
+            continue
+        nq, fn, cls = cands[0]
+        # the callers must not have gained other new callees that could equally be it: the candidate is unique by construction;
+        # arity must agree
+        old_params = known.get('params', {}).get(q)
+        if old_params is not None and len(old_params) != len(fn.args.args):
+            continue
+        used.add(nq)
+        _rename_everywhere(tree, fn.name, old_name, cls.name if cls is not None else None)
+        log.append('%s: %s was renamed to %s (the only new function its callers %s call in its place) - analysed under its old name'
+                   % (modname, q, nq, sorted(callers)))
     PROTECTED[id(tree)] = protected
     return log
 
@@ -420,13 +487,36 @@ class _Inliner:
                 if self._eligible(fn):
                     self.nested[(q.rsplit('.', 1)[0], fn.name)] = fn
                 continue
-            if not fn.name.startswith('_') or (fn.name.startswith('__') and fn.name.endswith('__')) or fn.name.startswith('_yatiml'):
+            # public or private alike: a function the pinned tree does not have is a helper (dunder methods and hooks are protocol)
+            if (fn.name.startswith('__') and fn.name.endswith('__')) or fn.name.startswith('_yatiml'):
+                continue
+            if cls is not None and any(isinstance(d, ast.Name) and d.id == 'property' for d in fn.decorator_list):
                 continue
             if fn.name in PROTECTED.get(id(tree), ()):
                 continue
             if not self._eligible(fn):
                 continue
             self.helpers[(cls.name if cls is not None else None, fn.name)] = fn
+        # step H: new helpers of other yatiml modules, by the name (or module alias) they are imported under
+        self.imported: Dict[str, ast.AST] = {}
+        self.mod_alias: Dict[str, str] = {}
+        for st in ast.walk(tree):
+            if isinstance(st, ast.ImportFrom):
+                mod = st.module or ''
+                if st.level:
+                    base = modname.split('.')
+                    pkg = base if modname == 'yatiml' else base[:-1]
+                    pkg = pkg[:len(pkg) - (st.level - 1)] if st.level > 1 else pkg
+                    mod = '.'.join(pkg + ([mod] if mod else []))
+                for a in st.names:
+                    if mod in EXTERNAL and a.name in EXTERNAL[mod] and mod != modname:
+                        self.imported[a.asname or a.name] = EXTERNAL[mod][a.name]
+                    elif (mod + '.' + a.name) in EXTERNAL:
+                        self.mod_alias[a.asname or a.name] = mod + '.' + a.name
+            elif isinstance(st, ast.Import):
+                for a in st.names:
+                    if a.name in EXTERNAL and a.asname:
+                        self.mod_alias[a.asname] = a.name
 
     def _presimplify(self):
         """helpers are brought closer to a single `return <expr>` before the call sites are looked at: local aliases of plain
@@ -473,6 +563,11 @@ class _Inliner:
             return self.nested[(self.cur_q, f.id)], None
         if isinstance(f, ast.Name) and (None, f.id) in self.helpers:
             return self.helpers[(None, f.id)], None
+        if isinstance(f, ast.Name) and f.id in self.imported:
+            return self.imported[f.id], None
+        if isinstance(f, ast.Attribute) and isinstance(f.value, ast.Name) and f.value.id in self.mod_alias \
+                and f.attr in EXTERNAL.get(self.mod_alias[f.value.id], {}):
+            return EXTERNAL[self.mod_alias[f.value.id]][f.attr], None
         if isinstance(f, ast.Attribute) and isinstance(f.value, ast.Name) and caller_cls is not None:
             for nm in (f.attr,):
                 base = nm
@@ -825,10 +920,17 @@ class _Inliner:
         if not isinstance(st.iter, ast.Call) or st.orelse:
             return None
         g, recv = self._callee(st.iter, caller_cls, caller_self)
-        if g is None or not any(isinstance(n, ast.Yield) for n in ast.walk(g)):
+        if g is None or not any(isinstance(n, (ast.Yield, ast.YieldFrom)) for n in ast.walk(g)):
             return None
-        if any(isinstance(n, (ast.YieldFrom, ast.Return)) for n in ast.walk(g)):
+        if any(isinstance(n, ast.Return) for n in ast.walk(g)):
             return None
+        if any(isinstance(n, ast.YieldFrom) and not (isinstance(getattr(n, '_stmt_ok', None), bool)) for n in ast.walk(g)):
+            # `yield from XS` is fine as a statement of its own (its value is not used)
+            for s_ in ast.walk(g):
+                if isinstance(s_, ast.Expr) and isinstance(s_.value, ast.YieldFrom):
+                    s_.value._stmt_ok = True
+            if any(isinstance(n, ast.YieldFrom) and not getattr(n, '_stmt_ok', False) for n in ast.walk(g)):
+                return None
         if any(isinstance(n, (ast.Break, ast.Continue)) for b in st.body for n in ast.walk(b)):
             return None             # the loop body would end up inside the helper's own loop
         try:
@@ -841,6 +943,11 @@ class _Inliner:
         def repl(stmts):
             out = []
             for s in stmts:
+                if isinstance(s, ast.Expr) and isinstance(s.value, ast.YieldFrom):
+                    # `yield from XS` under `for t in helper(): BODY` is `for t in XS: BODY`
+                    out.append(ast.copy_location(ast.For(copy.deepcopy(st.target), s.value.value, copy.deepcopy(st.body), [],
+                                                         lineno=s.lineno), s))
+                    continue
                 if isinstance(s, ast.Expr) and isinstance(s.value, ast.Yield):
                     yv = s.value.value or ast.Constant(None)
                     rebinds = isinstance(st.target, ast.Name) and any(
@@ -853,7 +960,7 @@ class _Inliner:
                         out.append(ast.copy_location(ast.Assign([copy.deepcopy(st.target)], yv, lineno=s.lineno), s))
                         out += copy.deepcopy(st.body)
                     continue
-                if any(isinstance(n, ast.Yield) for n in ast.walk(s)):
+                if any(isinstance(n, (ast.Yield, ast.YieldFrom)) for n in ast.walk(s)):
                     if isinstance(s, (ast.For, ast.While, ast.If, ast.With, ast.Try)):
                         for fld in ('body', 'orelse', 'finalbody'):
                             v = getattr(s, fld, None)
@@ -951,7 +1058,7 @@ class _Inliner:
         return out
 
     def run(self) -> List[str]:
-        if not self.helpers and not self.nested:
+        if not self.helpers and not self.nested and not self.imported and not self.mod_alias:
             return self.log
         self._presimplify()
         for _ in range(4):
@@ -962,6 +1069,13 @@ class _Inliner:
                 self.cur_q = q
                 self.cur_fn = fn
                 fn.body = self._process_block(fn.body, cls.name if cls is not None else None, caller_self)
+            # module level: registration statements (`add_path_representers(Dumper)`) call helpers too
+            self.cur_q = ''
+            self.cur_fn = self.tree
+            try:
+                self.tree.body = self._process_block(self.tree.body, None, None)
+            except NotInlinable:
+                pass
             if not self.changed:
                 break
         # helpers that are no longer referenced anywhere are removed
@@ -976,7 +1090,7 @@ class _Inliner:
                 elif isinstance(n, ast.Attribute) and n.attr in names:
                     refs += 1
             inside = sum(1 for n in ast.walk(g) if (isinstance(n, ast.Name) and n.id in names) or (isinstance(n, ast.Attribute) and n.attr in names))
-            if refs - inside <= 0:
+            if refs - inside <= 0 and name.startswith('_'):
                 for q, fn, cls, container in _scopes(self.tree):
                     if fn is g:
                         container.remove(g)
@@ -1178,6 +1292,7 @@ def restore_inlined(tree: ast.Module, modname: str) -> List[str]:
                 inl.known, inl.scopes = set(), _scopes(synth)
                 inl.helpers = {(cls_name, name): synth.body[0].body[0]}
                 inl.nested, inl.cur_q, inl.cur_fn = {}, '', synth_caller
+                inl.imported, inl.mod_alias = {}, {}
                 selfn = synth_caller.args.args[0].arg if synth_caller.args.args else None
                 rep = inl._inline_stmt(synth_caller.body[0], cls_name, selfn)
                 if not rep:
